@@ -147,3 +147,35 @@ def inflated_dfa_specs(draw, max_states=5, max_sigma=2, pool=POOL):
     perm = draw(st.permutations(Q))
     return {"Q": list(perm), "S": base["S"], "d": [[p, a, q] for (p, a), q in sorted(d.items())],
             "q0": base["q0"], "F": sorted(F), "eps": None}
+
+
+@st.composite
+def chain_nfa_specs(draw, min_states=5, max_states=12, eps_choices=EPS):
+    """NFAs with long epsilon chains / cycles (6-12 states), the shape random sparse NFAs rarely contain."""
+    n = draw(st.integers(min_states, max_states))
+    Q = draw(st.permutations(POOL[:max(n, 12)] if n <= 12 else POOL))[:n]
+    S = draw(alphabets(0, 2))
+    eps = draw(st.sampled_from([e for e in eps_choices if e not in S]))
+    d = []
+    seen = set()
+
+    def add(p, a, q):
+        if (p, a, q) not in seen:
+            seen.add((p, a, q))
+            d.append([p, a, q])
+    k = draw(st.integers(max(2, n - 3), n - 1))          # length of the epsilon chain
+    for i in range(k):
+        add(Q[i], eps, Q[i + 1])
+    if draw(st.booleans()):
+        add(Q[k], eps, Q[draw(st.integers(0, k))])        # close a cycle
+    for _ in range(draw(st.integers(0, 4))):
+        a = eps if not S or draw(st.integers(0, 3)) == 0 else S[draw(st.integers(0, len(S) - 1))]
+        add(Q[draw(st.integers(0, n - 1))], a, Q[draw(st.integers(0, n - 1))])
+    fmode = draw(st.integers(0, 3))
+    F = [Q[k]] if fmode == 0 else ([Q[n - 1]] if fmode == 1 else finals(draw, Q))
+    return {"Q": list(Q), "S": S, "d": d, "q0": Q[0] if draw(st.integers(0, 4)) else Q[draw(st.integers(0, n - 1))], "F": F, "eps": eps,
+            "rep": draw(st.sampled_from(REPS))}
+
+
+def mixed_nfa_specs(**kw):
+    return st.one_of(nfa_specs(**kw), nfa_specs(**kw), nfa_specs(**kw), chain_nfa_specs())
